@@ -68,7 +68,7 @@ MUTANTS = [
     ("C10", "detect", "specs/openapi/stateful/__init__.py", "        return result.response.status_code in status_codes", "        return result.response.status_code not in status_codes", "link status filter inverted"),
     # ---- C11
     ("C11", "detect", UNIT, "    yield scenario_finished(status)\n", "    pass\n", "scenario never closed"),
-    ("C11", "detect", "engine/core.py", "        yield from self._finish(engine)\n", "        pass\n", "EngineFinished omitted on the normal path (first occurrence)"),
+    ("C11", "detect", "engine/core.py", "        # Always finish\n        yield from self._finish(engine)\n", "        # Always finish\n        pass\n", "EngineFinished omitted on the normal path"),
     # ---- C12
     ("C12", "detect", UNIT, "            if ctx.has_to_stop:", "            if False and ctx.has_to_stop:", "stop request ignored before a request is sent"),
     ("C12", "detect", UNIT, "                    ctx.cache_outcome(case, exc)", "                    pass", "outcome cache not filled"),
